@@ -502,6 +502,12 @@ func genGraft(rf *kernel.Rand, name string) (ByteFault, bool) {
 	case m == 1 && has["GSUB"]:
 		fan := kernel.Pick(rf, []int{2, 3, 4, 8, 16, 64, 255})
 		return ByteFault{Kind: "graft", Tag: "GSUB", Data: faultdisk.SynthGSUBRecursion(int(gid), fan), Aim: fmt.Sprintf("GSUB:recursion fan-out %d", fan)}, true
+	case has["cmap"] && rf.Chance(0.25):
+		if base := faultdisk.FirstCmapSubtable4(img); base != nil {
+			n, m := kernel.Pick(rf, []int{16, 2000, 12000}), kernel.Pick(rf, []int{16, 4000, 20000})
+			return ByteFault{Kind: "graft", Tag: "cmap", Data: faultdisk.SynthCmap14Aliased(base, n, m), Aim: fmt.Sprintf("cmap:format 14, %d selectors sharing one table of %d ranges", n, m)}, true
+		}
+		fallthrough
 	case has["cmap"]:
 		var groups [][3]uint32
 		switch rf.Intn(4) {
